@@ -53,6 +53,10 @@ structure Tables where
   writeOrder : List Nat
   /-- names for printing. -/
   lumpNames : List (Nat × String)
+  /-- shape of the rebuild loop of `BSP.save`: `false` = walk `LUMP_REBUILD_ORDER` and pop from the live
+  cache at each entry (a view parsed by a writer during save is still written when its turn comes);
+  `true` = first list the entries that are cached, then walk that list. -/
+  snapshot : Bool := false
 deriving Repr, Inhabited
 
 namespace Tables
@@ -155,7 +159,11 @@ def saveStep (T : Tables) (C : Codec B V) (s : St B V) (l : Nat) : St B V :=
 
 /-- the rebuild loop of `BSP.save`. -/
 def save (T : Tables) (C : Codec B V) (s : St B V) : St B V :=
-  T.order.foldl (saveStep T C) s
+  if T.snapshot then
+    (T.order.filter fun l => match T.viewOfMain l with
+      | some v => (s.parsed v).isSome
+      | none => false).foldl (saveStep T C) s
+  else T.order.foldl (saveStep T C) s
 
 /-! ## Decidable well-formedness of the tables -/
 
@@ -220,6 +228,9 @@ def Frame (T : Tables) : Bool :=
     let d := T.view v
     (List.range T.n).all (fun w => w == v || d.clears.all fun l => !(T.view w).clears.contains l)
     && (d.rraw ++ d.wraw).all fun l => d.clears.contains l || !T.owned l
+
+/-- the rebuild loop pops from the live cache while it walks the order. -/
+def LiveLoop (T : Tables) : Bool := !T.snapshot
 
 /-- every borrowed key is put back by the borrower's writer, which runs before the lender's. -/
 def BorrowOK (T : Tables) : Bool :=
